@@ -227,7 +227,7 @@ def model_equiv_impl(m, t):
 
 def run(chk):
     chk.prove([])
-    n, per, mx = (420, 6, 8) if chk.thorough else (70, 5, 6)
+    n, per, mx = (420, 6, 8) if chk.thorough else (90, 6, 6)
     cases = gen_cases(chk, n, per)
     idx = [list(range(i, len(cases), core.NPROC)) for i in range(core.NPROC)]
     idx = [ix for ix in idx if ix]
